@@ -189,9 +189,17 @@ func (b *BlockSync) OnEnd(w *World) {
 					// processing panics are the processor's way of reporting an ApplyBlock failure on a block whose
 					// commit verified: for an uncommitted block that means the commit check let it through
 					w.Violate("C01:blocksync-adopts-uncommitted:"+of.kind, -1, "a syncing node accepts the commit offered for block %s at height %d (%s) although correct validators did not commit it (then fails applying it: %v)", blockKey(bi.ID), h, of.kind, p3)
-				case adopted && (!isCommitted || !want.BlockID.Equal(bi.ID)):
+				case adopted && isCommitted && !want.BlockID.Equal(bi.ID):
 					b.Adopted++
 					w.Violate("C01:blocksync-adopts-uncommitted:"+of.kind, -1, "a syncing node adopts block %s (%s) at height %d with a commit %s, but correct validators committed %s", blockKey(bi.ID), bi.Origin, h, of.kind, blockKey(want.BlockID))
+				case adopted && !isCommitted:
+					// nobody has committed this height yet. A block for which +2/3 genuine precommits of one round exist IS
+					// decided (the locks of their correct signers exclude every other block), whoever assembles them first:
+					// adopting it is right. Anything else (re-labelled prevotes, nil votes, no signatures) decides nothing.
+					b.Adopted++
+					if why := (&Safety{}).verifyCommitRef(w, of.second.LastCommit(), bi.ID, h, vals); why != "" {
+						w.Violate("C01:blocksync-adopts-uncommitted:"+of.kind, -1, "a syncing node adopts block %s (%s) at height %d, which nobody committed, with a commit %s that does not justify it (%s)", blockKey(bi.ID), bi.Origin, h, of.kind, why)
+					}
 				case adopted:
 					b.Adopted++
 				}
